@@ -40,9 +40,21 @@ class UserShake(FixedFrequencyExtension):
             algorithm.evaluate_all([s])
 
 
-def build(cfg):
+CTOR_DREW = []     # configurations whose constructor changed the state of the global generator (late-seed mode)
+
+
+def build(cfg, late_seed=None):
+    """seed, construct (default)  |  late_seed=x: put the generator in state x, construct, THEN seed"""
     kw = {k: cfg[k] for k in ("pop", "off", "constrained", "variator", "window", "big", "capacity", "divisions", "nobjs") if k in cfg}
-    alg, info = algos.build(cfg["alg"], cfg["vtype"], seed=cfg["seed"], **kw)
+    if late_seed is None:
+        alg, info = algos.build(cfg["alg"], cfg["vtype"], seed=cfg["seed"], **kw)
+    else:
+        random.seed(late_seed)
+        before = random.getstate()
+        alg, info = algos.build(cfg["alg"], cfg["vtype"], seed=None, **kw)
+        if random.getstate() != before:
+            CTOR_DREW.append(cfg)
+        random.seed(cfg["seed"])
     if cfg.get("userext"):
         alg.add_extension(UserShake(cfg["userext"]))
     return alg, info
@@ -130,6 +142,30 @@ def job_history(job):
     return out
 
 
+def job_conds(job):
+    """three consecutive run() calls with the same budget n, handed over as int / a fresh MaxEvaluations per call / ONE shared
+    MaxEvaluations object; and the single call run(F) with F = nfe after the three int calls"""
+    from platypus import MaxEvaluations
+    out = []
+    for cfg, n in zip(job["configs"], job["n"]):
+        try:
+            r = {}
+            for mode in ("int", "fresh", "shared"):
+                alg, _ = build(cfg)
+                shared = MaxEvaluations(n)
+                sizes = []
+                for _ in range(3):
+                    sizes.append(run_logged(alg, n if mode == "int" else (shared if mode == "shared" else MaxEvaluations(n))))
+                r[mode] = {"sizes": sizes, "sig": signature(alg)}
+            alg, _ = build(cfg)
+            F = r["int"]["sig"]["nfe"]
+            r["single"] = {"sizes": run_logged(alg, F), "sig": signature(alg), "F": F}
+            out.append(r)
+        except Exception as e:  # noqa: BLE001
+            out.append({"error": "%s: %s" % (type(e).__name__, e)})
+    return {"runs": out}
+
+
 def job_repeat(job):
     """the same seeded configuration twice in a row in THIS interpreter (re-seeded, fresh algorithm object each time)"""
     first = job_replay(job)
@@ -143,6 +179,12 @@ def job_replay(job):
         try:
             # budget given by the parent (taken from the fresh-interpreter run) -> no pilot run in this interpreter
             T = job["T"][ci] if job.get("T") else pilot_T(cfg, job["K"])
+            if job.get("late_seed") is not None:
+                n0 = len(CTOR_DREW)
+                alg, _ = build(cfg, late_seed=job["late_seed"] + ci)
+                sizes = run_logged(alg, T)
+                out.append({"T": T, "sizes": sizes, "sig": signature(alg), "ctor_drew": len(CTOR_DREW) > n0})
+                continue
             alg, _ = build(cfg)
             sizes = run_logged(alg, T)
             out.append({"T": T, "sizes": sizes, "sig": signature(alg)})
@@ -205,7 +247,7 @@ def job_resume(job):
 def main():
     job = json.load(open(sys.argv[1]))
     try:
-        res = {"replay": job_replay, "produce": job_produce, "resume": job_resume, "history": job_history, "repeat": job_repeat}[job["job"]](job)
+        res = {"replay": job_replay, "produce": job_produce, "resume": job_resume, "history": job_history, "repeat": job_repeat, "conds": job_conds}[job["job"]](job)
     except Exception as e:  # noqa: BLE001
         import traceback
         res = {"error": "%s: %s" % (type(e).__name__, e), "trace": traceback.format_exc()[-1500:]}
